@@ -679,6 +679,17 @@ def rule_at_most_one_yield(em, rep, rid):
     # iterator classes
     for c in em.repo.all_classes(('engine',)):
         if '__next__' in c.methods:
+            shared = None
+            for k_ in em.repo.mro(c):
+                if '__new__' in k_.methods:
+                    shared = '%s.__new__ decides which object a construction returns' % k_.name
+                it = k_.methods.get('__iter__')
+                if it is not None and any(isinstance(n, ast.Attribute) and isinstance(n.ctx, ast.Store) for n in own_nodes(it.node)):
+                    shared = shared or '%s.__iter__ resets the state of the object' % k_.name
+            if shared:
+                rep.violation(rid, c.qname + ':fresh', 'the result iterator of a unification is not an object of its own with a flag of its own '
+                              '(%s): two unifications that are alive at the same time share one "already succeeded" flag, so one of '
+                              'them succeeds twice or not at all' % shared, c.loc())
             k = iterator_class_kind(em, c)
             rep.ok(rid, c.qname, 'iterator class succeeds %s' % k, c.loc(), nontrivial=True) if k in ('once', 'never') else \
                 rep.note(rid, 'iterator class %s may succeed more than once' % c.qname, c.loc())
